@@ -29,6 +29,7 @@
 #include <array>
 #include <cassert>
 #include <iosfwd>
+#include <memory>
 #include <random>
 #include <string>
 #include <vector>
@@ -108,7 +109,81 @@ struct RunResult { std::string stage[3]; uint64_t cbsig = 0; long lb = 0; };
 
 static uint64_t fold(uint64_t h, long long v) { return (h ^ (uint64_t)v) * 0x100000001B3ULL + 0x9E37; }
 
-static RunResult runFlow(Circuit &c, const ColoquinteParameters &p, bool withCb) {
+// ---- caller-owned objects that the callback overwrites while the call is running (aliasing variants) ----
+// pattern 0: everything minimal / zero; 1: another parameter set that check() accepts; 2: extreme values of the field's type
+// (loop bounds negative so that a run that wrongly reads them still ends)
+static void scribbleParams(ColoquinteParameters &p, int pattern, uint64_t h) {
+  if (pattern == 1) {
+    ColoquinteParameters q(1 + (int)(h % 9), (int)(h % 977) + 1);
+    q.global.maxNbSteps = 3 + (int)(h % 5); q.global.nbInitialSteps = 0; q.global.noise = 0.5; q.global.exportBlending = 1.0 - q.global.exportBlending;
+    q.global.continuousModel.netModel = (h & 1) ? NetModelOption::Star : NetModelOption::BoundToBound;
+    q.global.penalty.updateFactor = 1.9; q.global.penalty.initialValue *= 64; q.global.gapTolerance = 1.0;
+    q.global.roughLegalization.unidimensionalTransport = !q.global.roughLegalization.unidimensionalTransport;
+    q.detailed.nbPasses = (int)(h % 3); q.detailed.shiftMaxNbCells = 0; q.detailed.reorderingMaxNbCells = (int)(h % 4); q.detailed.localSearchNbNeighbours = (int)(h % 2);
+    q.legalization.orderingWidth = 2.0; q.legalization.orderingY = -0.2; q.legalization.orderingHeight = 1.0;
+    p = q; return;
+  }
+  const bool lo = pattern == 0;
+  const int I = lo ? 0 : -2147483647 - 1; const double D = lo ? 0.0 : (h & 1 ? 1.0e300 : -1.0e300);
+  auto &g = p.global; auto &cm = g.continuousModel; auto &rl = g.roughLegalization; auto &pe = g.penalty; auto &le = p.legalization; auto &de = p.detailed;
+  g.maxNbSteps = I; g.nbInitialSteps = I; g.nbStepsBeforeRoughLegalization = lo ? 1 : 2147483647; g.gapTolerance = lo ? 1.0 : D; g.distanceTolerance = lo ? 1.0e30 : D;
+  g.penaltyUpdateDistance = D; g.penaltyUpdateBackoff = D; g.exportBlending = lo ? -0.5 : D; g.noise = lo ? 2.0 : D;
+  cm.netModel = lo ? NetModelOption::Star : (NetModelOption)(((int)cm.netModel + 1) % 2); cm.approximationDistance = D; cm.approximationDistanceUpdateFactor = D;
+  cm.maxNbConjugateGradientSteps = lo ? 1 : I; cm.conjugateGradientErrorTolerance = lo ? 1.0 : D;
+  rl.costModel = lo ? LegalizationModel::LInf : LegalizationModel::L2Squared; rl.nbSteps = I; rl.binSize = lo ? 1.0 : D;
+  rl.lineReoptSize = rl.diagReoptSize = rl.squareReoptSize = lo ? 1 : I; rl.lineReoptOverlap = rl.diagReoptOverlap = rl.squareReoptOverlap = lo ? 1 : I;
+  rl.unidimensionalTransport = !rl.unidimensionalTransport; rl.quadraticPenalty = D; rl.sideMargin = D; rl.coarseningLimit = D; rl.targetBlending = D;
+  pe.cutoffDistance = D; pe.cutoffDistanceUpdateFactor = D; pe.areaExponent = D; pe.initialValue = D; pe.updateFactor = D; pe.targetBlending = D;
+  le.costModel = lo ? LegalizationModel::L2 : LegalizationModel::LInfSquared; le.orderingWidth = D; le.orderingHeight = D; le.orderingY = D;
+  de.nbPasses = I; de.localSearchNbNeighbours = I; de.localSearchNbRows = I; de.shiftNbRows = lo ? 1 : I; de.shiftMaxNbCells = I; de.reorderingNbRows = lo ? 1 : I; de.reorderingMaxNbCells = I;
+  p.seed = lo ? 0 : (int)(h % 100000) + 5;
+}
+
+// the vectors handed (by const reference) to the Circuit's setters, kept alive by the caller and overwritten later
+struct LiveInputs {
+  std::vector<int> x, y, w, h; std::vector<bool> fx, ob; std::vector<CellRowPolarity> pol; std::vector<CellOrientation> ori;
+  std::vector<Row> rows; std::vector<std::vector<int>> cs, xo, yo; std::vector<float> wt; PlacementSolution sol;
+  explicit LiveInputs(const TCircuit &t) {
+    for (auto &k : t.cells) { x.push_back(k[0]); y.push_back(k[1]); w.push_back(k[2]); h.push_back(k[3]); ori.push_back((CellOrientation)k[4]); pol.push_back(kPol[k[5]]); fx.push_back(k[6]); ob.push_back(k[7]);
+                              sol.push_back(CellPlacement((int)k[0], (int)k[1], (CellOrientation)k[4])); }
+    for (auto &r : t.rows) rows.emplace_back((int)r[0], (int)r[1], (int)r[2], (int)r[3], (CellOrientation)r[4]);
+    for (size_t k = 0; k < t.nets.size(); ++k) { cs.emplace_back(); xo.emplace_back(); yo.emplace_back(); for (auto &q : t.nets[k]) { cs.back().push_back(q[0]); xo.back().push_back(q[1]); yo.back().push_back(q[2]); } wt.push_back(netWeightOfCode(t.netw2[k])); }
+  }
+  Circuit build() const {
+    Circuit c((int)x.size());
+    c.setCellWidth(w); c.setCellHeight(h); c.setCellIsFixed(fx); c.setCellIsObstruction(ob); c.setCellRowPolarity(pol); c.setCellOrientation(ori); c.setCellX(x); c.setCellY(y);
+    c.setRows(rows);
+    for (size_t k = 0; k < cs.size(); ++k) c.addNet(cs[k], xo[k], yo[k], wt[k]);
+    c.setNetWeights(wt); c.setSolution(sol);
+    return c;
+  }
+  void scribble(uint64_t s, bool shrink) {
+    SplitMix g(s);
+    for (auto *v : {&x, &y, &w, &h}) for (auto &e : *v) e = (int)g.uni(-1000000, 1000000);
+    for (size_t i = 0; i < fx.size(); ++i) { fx[i] = !fx[i]; ob[i] = g.coin(50); pol[i] = kPol[g.uni(0, 2)]; ori[i] = (CellOrientation)g.uni(0, 7); sol[i] = CellPlacement((int)g.uni(-9999, 9999), (int)g.uni(-9999, 9999), (CellOrientation)g.uni(0, 7)); }
+    for (auto &r : rows) r = Row((int)g.uni(-50, 0), (int)g.uni(1, 50), (int)g.uni(-50, 0), (int)g.uni(1, 50), (CellOrientation)g.uni(0, 7));
+    for (auto *vv : {&cs, &xo, &yo}) for (auto &v : *vv) for (auto &e : v) e = (int)g.uni(0, 3);
+    for (auto &e : wt) e = (float)g.uni(0, 1000);
+    if (shrink) { x.clear(); x.shrink_to_fit(); y = std::vector<int>(1, 7); w.clear(); h.assign(3, -1); fx.clear(); ob.clear(); pol.clear(); ori.clear(); rows.clear(); rows.shrink_to_fit();
+                  cs.clear(); cs.shrink_to_fit(); xo.clear(); yo.clear(); wt.clear(); wt.shrink_to_fit(); sol.clear(); sol.shrink_to_fit(); }
+  }
+};
+
+struct Scrib {
+  ColoquinteParameters live{1, 1};           // the object handed to the stage; restored from the case's parameters before every stage
+  uint64_t seed = 0; long n = 0;
+  LiveInputs *inputs = nullptr;              // the setters' arguments the circuit was built from
+  std::unique_ptr<Circuit> *copySrc = nullptr;   // the circuit the placed one was copied from
+  const Circuit *other = nullptr;            // what the copy source is overwritten with
+  void fire() {
+    long k = n++; uint64_t h = hk::mix(seed, (uint64_t)k);
+    scribbleParams(live, (int)((seed + (uint64_t)k) % 3), h);
+    if (inputs) inputs->scribble(h, k >= 1);
+    if (copySrc && *copySrc) { if (k == 0 && other) **copySrc = *other; else copySrc->reset(); }
+  }
+};
+
+static RunResult runFlow(Circuit &c, const ColoquinteParameters &p0, bool withCb, Scrib *sc = nullptr) {
   RunResult r; r.cbsig = 0xcbf29ce484222325ULL;
   std::optional<PlacementCallback> cb;
   if (withCb) cb = [&](PlacementStep s) {
@@ -116,9 +191,12 @@ static RunResult runFlow(Circuit &c, const ColoquinteParameters &p, bool withCb)
     r.cbsig = fold(r.cbsig, (int)s);
     for (int i = 0; i < c.nbCells(); ++i) { r.cbsig = fold(r.cbsig, c.cellX()[i]); r.cbsig = fold(r.cbsig, c.cellY()[i]); r.cbsig = fold(r.cbsig, (int)c.cellOrientation()[i]); }
     r.cbsig = fold(r.cbsig, c.hpwl());
+    if (sc) sc->fire();   // never touches c: only objects owned by the caller
   };
   for (int st = 0; st < 3; ++st) {
     std::string res = "OK";
+    if (sc) sc->live = p0;
+    const ColoquinteParameters &p = sc ? sc->live : p0;
     try {
       if (st == 0) c.placeGlobal(p, cb); else if (st == 1) c.legalize(p, cb); else c.placeDetailed(p, cb);
     } catch (std::exception &e) { res = std::string("THROW ") + e.what(); }
@@ -191,6 +269,19 @@ int main(int argc, char **argv) {
           Circuit c = orig; cmp(name, runFlow(c, p, withCb), withCb);
         }
       };
+      // aliasing variants: the observing callback overwrites objects that belong to the caller (never the circuit being placed)
+      long scribbles = 0;
+      auto aliasing = [&](const char *name, int hmode, bool all) {
+        if (!diff.empty()) return;
+        hk::reset(hmode, aux + runs);
+        Scrib sc; sc.seed = aux + (uint64_t)runs;
+        if (!all) { Circuit c = orig; cmp(name, runFlow(c, p, true, &sc), true); scribbles += sc.n; return; }
+        SplitMix g(aux + 99); GenOpts o; o.nets = true; o.maxCells = 12; TCircuit u = genCircuit(g, o); Circuit cu = buildCircuit(u);
+        LiveInputs li(t); auto src = std::make_unique<Circuit>(li.build());
+        Circuit c = *src;   // the copy is placed; its source and the setters' arguments are overwritten / destroyed during the calls
+        sc.inputs = &li; sc.copySrc = &src; sc.other = &cu;
+        cmp(name, runFlow(c, p, true, &sc), true); scribbles += sc.n;
+      };
       variant("repeat", hk::FREE, false, 0);
       variant("copy", hk::FREE, false, 1);
       variant("callback", hk::FREE, true, 0);
@@ -201,9 +292,11 @@ int main(int argc, char **argv) {
       variant("forced-yx", hk::FORCE_YX, true, 0);
       if (!light) variant("forced-alternating", hk::FORCE_ALT, false, 0);
       if (!light) variant("after-unrelated+callback", hk::DELAY, true, 2);
+      aliasing("callback-overwrites-its-parameters", hk::FREE, false);
+      if (!light) aliasing("callback-overwrites-parameters+setter-arguments+copy-source", hk::DELAY, true);
       hk::reset(hk::FREE, 0);
       if (!diff.empty()) { printf("DIFF %s\n", diff.c_str()); fflush(stdout); continue; }
-      printf("OK runs=%d lb=%ld hook=%ld forced=%ld unforced=%ld axis=%d cbsig=%llu sol=%s | %s | %s\n", runs, cbBase.lb,
+      printf("OK runs=%d scrib=%ld lb=%ld hook=%ld forced=%ld unforced=%ld axis=%d cbsig=%llu sol=%s | %s | %s\n", runs, scribbles, cbBase.lb,
              hk::calls.load(std::memory_order_relaxed) - hook0, hk::forced - forced0, hk::unforced - unforced0, (int)hk::axisOk,
              (unsigned long long)cbBase.cbsig, base.stage[0].c_str(), base.stage[1].c_str(), base.stage[2].c_str());
     } catch (std::exception &ex) { printf("THROW-OUTER %s\n", ex.what()); }
